@@ -248,7 +248,7 @@ func runC11(c *Ctx) {
 			doRead(pick(rng, []string{"object", "object-getvar"}), "Var", g, efivarsDirs[0], req, content, false, "exhaustive-one-required-bit-missing")
 		}
 	}
-	n := c.N(600, 12000)
+	n := c.N(600, 100000)
 	for i := 0; i < n; i++ {
 		v, vclass := genVar(rng)
 		value, kind := genValue(rng)
